@@ -1,4 +1,5 @@
 """Reader state-machine rules: R-RESUME, R-RETRY, R-SEEK-EACH, R-RUNS, early-end => error."""
+import collections
 from ..facts import callee_q, succs
 from ..terms import Terms, simplify, has_call, has_field, show, walk, calls_in
 from ..paths import Explorer, Rule
@@ -22,11 +23,23 @@ def stores(b, field):
 
 
 def self_fields(term):
-    """names of fields read from parameter 0 (self) inside a term"""
-    out = set()
+    """names of the fields read from parameter 0 (self) inside a term; for a field kept in a nested private struct
+    (`self.range.offset`) the innermost name: it is the value that is read, whatever it is wrapped in"""
+    chains = set()
     for n in walk(term):
-        if n[0] == 'field' and isinstance(n[1], tuple) and n[1][0] == 'param' and n[1][2] == 0:
-            out.add(n[2])
+        if n[0] != 'field':
+            continue
+        path, cur = [n[2]], n[1]
+        while isinstance(cur, tuple) and cur[0] in ('field', 'deref', 'ref'):
+            if cur[0] == 'field':
+                path.append(cur[2])
+            cur = cur[1]
+        if isinstance(cur, tuple) and cur[0] == 'param' and cur[2] == 0:
+            chains.add(tuple(reversed(path)))
+    out = set()
+    for c in chains:
+        if not any(o != c and o[:len(c)] == c for o in chains):
+            out.add(c[-1])
     return out
 
 
@@ -169,6 +182,9 @@ def run(facts, cg):
                                 cterm = simplify(T.resolve_env(simplify(T.of_operand(b, ct['op']))))
                                 if has_field(cterm, f_) and any(n == ('const', 0) for n in walk(cterm)):
                                     ok = f_
+                                # `match budget.checked_sub(1) { None => give up, Some(left) => .. }` is the same test
+                                if has_field(cterm, f_) and has_call(cterm, '::checked_sub') and any(n[0] == 'discr' for n in walk(cterm)):
+                                    ok = f_
         instances.append({'rule': 'R-RETRY', 'function': b.q, 'rearm_at': t['loc'], 'budget_field': ok})
         if not ok:
             finding('R-RETRY', b.q, 'unbounded', 'the request is re-armed at %s without consuming a retry budget that is compared with zero' % t['loc'])
@@ -211,6 +227,7 @@ def run(facts, cg):
         sf = fields.pop()
         # role of each variant = the call its dispatch arm leads to first
         role_of = {}
+        arm_of = collections.defaultdict(set)        # role -> blocks at which the dispatch arm of a state with that role starts
         for sbi in b.live:
             sw = b.blocks[sbi]['term']
             if sw['k'] != 'switch':
@@ -223,16 +240,19 @@ def run(facts, cg):
                        if any(tgt == cbi or tgt in dom.get(cbi, ()) for cbi, _ in sites)]
                 if len(hit) == 1:
                     role_of.setdefault(v, hit[0])
+                    arm_of[hit[0]].add(tgt)
         inst['variant_roles'] = {str(k): v for k, v in role_of.items()}
         by_role = {r: [x for x in st_stores if role_of.get(x[2]) == r] for r in ('seek', 'wait', 'read')}
         if not all(by_role.values()):
             finding('R-SEEK-EACH', b.q, 'anchor', 'seek / complete / read state machine not recognised (cannot decide)')
             continue
+        # (a store made inside the arm of the same state keeps the state: `Read { filled: filled + n }`)
+        in_arm = lambda role, sbi: any(a == sbi or a in dom.get(sbi, ()) for a in arm_of[role])
         for sbi, st, v, _ in by_role['read']:
-            if not any(cbi in dom.get(sbi, ()) for cbi, _ in completes):
+            if not any(cbi in dom.get(sbi, ()) for cbi, _ in completes) and not in_arm('read', sbi):
                 finding('R-SEEK-EACH', b.q, 'read-without-completed-seek', 'the reader can enter the reading state without a completed seek')
         for sbi, st, v, _ in by_role['wait']:
-            if not any(cbi in dom.get(sbi, ()) for cbi, _ in seeks):
+            if not any(cbi in dom.get(sbi, ()) for cbi, _ in seeks) and not in_arm('wait', sbi):
                 finding('R-SEEK-EACH', b.q, 'pollseek-without-seek', 'the reader can wait for a seek that was never started')
         for cbi, ct in seeks:
             term = simplify(T.of_operand(b, ct['args'][1]))
@@ -340,7 +360,14 @@ def run(facts, cg):
                             ct = simplify(T.of_operand(b, sw['op']))
                             if isinstance(ct, tuple) and ct[0] == 'binop' and ct[1] in ('Eq', 'Ne', 'Le', 'Lt', 'Gt', 'Ge') and \
                                     any(has_field(ct, f_) for f_ in usz) and any(n_ == ('const', 0) or n_ == ('const', 1) for n_ in walk(ct)):
-                                guarded = True
+                                # the drop sits behind the "counter is zero" edge of this test on every path: with that edge taken
+                                # away it cannot be reached (a test that is only the first half of `a == 0 || other` does not do)
+                                zero_true = _zero_when_true(ct)
+                                t_edge = sw['otherwise']
+                                f_edge = dict(zip(sw['vals'], sw['targets'])).get(0)
+                                cands = [t_edge] if zero_true is True else [f_edge] if zero_true is False else [t_edge, f_edge]
+                                if any(tg is not None and not _reachable_without_edge(b, (cbi, tg), bi) for tg in cands):
+                                    guarded = True
                     instances.append({'rule': 'R-RUNS(one-request-per-run)', 'function': b.q, 'request_field': holder, 'dropped_at': st['loc'], 'guarded_by_run_counter': guarded})
                     if not guarded:
                         finding('R-RUNS', b.q, 'request-dropped-early', 'the range request in flight is given up at %s without the count of chunks it still covers having '
@@ -348,6 +375,33 @@ def run(facts, cg):
     if n_req < 1 or n_adj < 1:
         finding('R-RUNS', '-', 'floor', 'the construction of the range request / the adjacency predicate of the http chunk reader were not found (cannot decide)')
     return instances, findings
+
+
+def _zero_when_true(ct):
+    """for a comparison of a counter with the constant 0 / 1: is the counter zero when the comparison is true? (None: unknown)"""
+    op, a, c = ct[1], ct[2], ct[3]
+    flip = {'Lt': 'Gt', 'Gt': 'Lt', 'Le': 'Ge', 'Ge': 'Le', 'Eq': 'Eq', 'Ne': 'Ne'}
+    if isinstance(a, tuple) and a[0] == 'const':
+        a, c, op = c, a, flip[op]
+    if not (isinstance(c, tuple) and c[0] == 'const'):
+        return None
+    k = c[1]
+    return {('Eq', 0): True, ('Ne', 0): False, ('Lt', 1): True, ('Le', 0): True, ('Gt', 0): False, ('Ge', 1): False}.get((op, k))
+
+
+def _reachable_without_edge(b, edge, target):
+    fe = b.feasible_edges()
+    seen, w = {0}, [0]
+    while w:
+        x = w.pop()
+        if x == target:
+            return True
+        for s_ in succs(b.blocks[x]['term']):
+            if (x, s_) == edge or s_ in seen or b.blocks[s_].get('cleanup') or (fe is not None and (x, s_) not in fe):
+                continue
+            seen.add(s_)
+            w.append(s_)
+    return target in seen
 
 
 def _calls_like(t, part):
